@@ -69,6 +69,10 @@ def fits_writer(filename, data, components=None):
         if mask is not None:
             # We need to copy the values so that we can mask them
             values = values.copy()
+            if values.dtype == np.int8:
+                # FITS files store signed 8-bit integers as unsigned bytes
+                # with an offset, for which BLANK values are not supported
+                values = values.astype(np.int16)
             if values.dtype.kind == 'f':
                 values[~mask] = np.nan
             elif values.dtype.kind == 'i':
